@@ -26,6 +26,7 @@
 -/
 import SSJ.Proofs.EntrySetSim
 import SSJ.Props.C09_exact
+import SSJ.Props.C09_filters
 
 namespace SSJ.Props.C09
 open SSJ SSJ.Props
